@@ -62,8 +62,26 @@ func fmtToBuiltin(fctx *formatCtx, ctx *importCtx, sel *ast.Ident, ref *ast.Expr
 func commandStyleFirst(v *ast.CallExpr) {
 	switch v.Fun.(type) {
 	case *ast.Ident, *ast.SelectorExpr:
+		if len(v.Args) == 0 && !isIdentChain(v.Fun) {
+			// `f().g` is not a call statement for the compiler, `f().g()` is
+			return
+		}
 		if v.NoParenEnd == token.NoPos {
 			v.NoParenEnd = v.Rparen
+		}
+	}
+}
+
+// isIdentChain reports whether x has the form a, a.b, a.b.c, ...
+func isIdentChain(x ast.Expr) bool {
+	for {
+		switch v := x.(type) {
+		case *ast.Ident:
+			return true
+		case *ast.SelectorExpr:
+			x = v.X
+		default:
+			return false
 		}
 	}
 }
